@@ -60,10 +60,66 @@ UNITS = [
          bound="paths of <= 1e6 states", functions=["ompl::geometric::PathGeometric::subdivide"], backend="minisat", confirm=dict(unwind=6, defines={}),
          canaries=[dict(name="midpoint_after_vertex", where="body:subdivide", rx=r"(NS_PUSH_NEW\(\);)\s*(NS_PUSH_ORIG\(\(size_t\)i\);)", repl=r"\2 \1")]),
 ]
+# ---------------------------------------------------------------- PathSimplifier (bounded)
+PS = "src/ompl/geometric/src/PathSimplifier.cpp"
+PSR = [
+    (r"const base::SpaceInformationPtr &si = path\.getSpaceInformation\(\);", "", 0), (r"std::vector<base::State \*> &states = path\.getStates\(\);", "", 0),
+    (r"path\.getStateCount\(\)", "states_size", 0),
+    (r"std::vector<base::State \*> newStates\(2\);\s*newStates\[0\] = states\.front\(\);\s*newStates\[1\] = states\.back\(\);\s*states\.swap\(newStates\);", "KEEP_ENDPOINTS();", 0),
+    (r"states\.erase\(states\.begin\(\) \+ p1 \+ 1, states\.begin\(\) \+ p2\);", "ERASE(p1 + 1, p2);", 0),
+    (r"states\.size\(\)", "states_size", 0), (r"states\.front\(\)", "states[0]", 0), (r"states\.back\(\)", "states[states_size - 1]", 0),
+    (r"si->checkMotion\(", "CM(", 0), (r"si->freeState\(", "FREE(", 0), (r"si->allocState\(\)", "ALLOC()", 0), (r"si->isValid\(", "ISVALID(", 0), (r"si->distance\(", "DIST(", 0),
+    (r"si->getStateSpace\(\)->interpolate\(([^,]+), ([^,]+), 0\.5, (\w+)\);", r"INTERP(\1, \2, \3);", 0),
+    (r"si->copyState\(states\[i\], (\w+)\);", r"COPY_INTO_PATH(i, \1);", 0),
+    (r"path\.subdivide\(\);", "SUBDIVIDE();", 0),
+    (r"rng_\.uniformInt\(", "UNIFORM_INT(", 0), (r"\(int\)\(floor\(0\.5 \+ \(double\)count \* rangeRatio\)\)", "FLOORI()", 0),
+    (r"std::max\(", "MAXI(", 0), (r"std::min\(", "MINI(", 0), (r"std::swap\(p1, p2\);", "SWAPI(p1, p2);", 0), (r"std::size_t", "size_t", 0),
+    (r"std::map<std::pair<const base::State \*, const base::State \*>, double> distances;", "", 0),
+    (r"distances\[std::make_pair\(states\[(\w+)\], states\[(\w+)\]\)\]", r"DMAP[states[\1]][states[\2]]", 0),
+    (r"std::numeric_limits<double>::infinity\(\)", "INFD", 0), (r"base::State \*(\w+) = ", r"SRef \1 = ", 0),
+]
+PSS = [
+    dict(name="reduceVertices", file=PS, sig=r"bool ompl::geometric::PathSimplifier::reduceVertices\(PathGeometric &path, unsigned int maxSteps,\s*unsigned int maxEmptySteps, double rangeRatio\)", rules=PSR, loops={"allow_uncontracted": True}),
+    dict(name="collapseCloseVertices", file=PS, sig=r"bool ompl::geometric::PathSimplifier::collapseCloseVertices\(PathGeometric &path, unsigned int maxSteps,\s*unsigned int maxEmptySteps\)", rules=PSR, loops={"allow_uncontracted": True}),
+    dict(name="smoothBSpline", file=PS, sig=r"void ompl::geometric::PathSimplifier::smoothBSpline\(PathGeometric &path, unsigned int maxSteps, double minChange\)", rules=PSR, loops={"allow_uncontracted": True}),
+]
+PFL = ["--bounds-check", "--pointer-check", "--signed-overflow-check", "--conversion-check", "--div-by-zero-check"]
+for fn, can in (("reduceVertices", [dict(name="shortcut_not_validated", where="body:reduceVertices", rx=r"if \(CM\(states\[p1\], states\[p2\]\)\)", repl="if (CM(states[p1], states[p2]) || 1)"),
+                                    dict(name="frees_an_endpoint", where="body:reduceVertices", rx=r"for \(int j = p1 \+ 1; j < p2; \+\+j\)", repl="for (int j = p1 + 1; j <= p2; ++j)")]),
+                ("collapseCloseVertices", [dict(name="erases_wrong_range", where="body:collapseCloseVertices", rx=r"ERASE\(p1 \+ 1, p2\);", repl="ERASE(p1 + 1, p2 + 1 < (int)states_size ? p2 + 1 : p2);")]),
+                ("smoothBSpline", [dict(name="outgoing_leg_not_validated", where="body:smoothBSpline", rx=r"CM\(temp1, states\[i \+ 1\]\)", repl="CM(temp2, states[i + 1])")])):
+    UNITS.append(dict(name="c17_simplifier_" + fn, template="C17/simplifier.c", mode="plain", entry="h_" + fn, sources=PSS, flags=PFL, unwind=7, level="bounded", backend="cadical", timeout=1500, defines=dict(NMAX=5, CAP=5, NREF=9),
+                      bound="paths of <= 5 states (smoothBSpline: <= 3 states, 1 step), <= 2 steps", functions=["ompl::geometric::PathSimplifier::" + fn], canaries=can))
+
+# ---------------------------------------------------------------- PathSimplifier::findBetterGoal (bounded)
+BGR = [
+    (r"std::vector<base::State \*> &states = path\.getStates\(\);", "", 0), (r"const base::StateSpacePtr &ss = si_->getStateSpace\(\);", "", 0),
+    (r"std::vector<base::Cost> costs\(states\.size\(\), obj_->identityCost\(\)\);", "INIT_COSTS();", 0), (r"std::vector<double> dists\(states\.size\(\), 0\.0\);", "INIT_DISTS();", 0),
+    (r"costs\.resize\(states\.size\(\), obj_->identityCost\(\)\);", "RESIZE_COSTS();", 0), (r"dists\.resize\(states\.size\(\), 0\.0\);", "RESIZE_DISTS();", 0),
+    (r"path\.getStateCount\(\)", "states_size", 0), (r"path\.getState\(0\)", "states[0]", 0), (r"path\.append\(tempGoal\);", "APPEND(tempGoal);", 0),
+    (r"std::min\(\(unsigned\)10, gsr_->maxSampleCount\(\)\)", "MINU(10u, MAXSAMPLECOUNT())", 0),
+    (r"auto end = std::lower_bound\(dists\.begin\(\), dists\.end\(\), t\);", "size_t end = LOWER_BOUND(t);", 0), (r"auto start = end;", "size_t start = end;", 0),
+    (r"start != dists\.begin\(\) && \*start >= t", "start != 0 && dists[start] >= t", 0),
+    (r"= start - dists\.begin\(\);", "= (unsigned int)start;", 0), (r"= end - dists\.begin\(\);", "= (unsigned int)end;", 0),
+    (r"\(\*start\)", "dists[start]", 0), (r"\(\*end\)", "dists[end]", 0), (r"\(\*end - \*start\)", "(dists[end] - dists[start])", 0),
+    (r"states\.erase\(states\.begin\(\) \+ (\w+) \+ 2, states\.end\(\)\);", r"ERASE_TAIL(\1 + 2);", 0),
+    (r"states\.size\(\)", "states_size", 0), (r"dists\.size\(\)", "dists_size", 0), (r"dists\.back\(\)", "dists[dists_size - 1]", 0), (r"costs\.back\(\)", "costs[costs_size - 1]", 0),
+    (r"\bstates\[([^\]]+)\]", r"(*states_at(\1))", 0), (r"\bdists\[([^\]]+)\]", r"(*dists_at(\1))", 0), (r"\bcosts\[([^\]]+)\]", r"(*costs_at(\1))", 0),
+    (r"obj_->combineCosts\(", "COMBINE(", 0), (r"obj_->motionCost\(", "MCOST(", 0), (r"obj_->isCostBetterThan\(", "BETTER(", 0), (r"base::Cost (\w+) = ", r"long \1 = ", 0),
+    (r"base::State \*(\w+)( =|;)", r"SRef \1\2", 0), (r"si_->allocState\(\)", "ALLOC()", 0), (r"si_->freeState\(", "FREE(", 0), (r"si_->distance\(", "DIST(", 0), (r"si_->checkMotion\(", "CM(", 0), (r"si_->copyState\(", "COPYSTATE(", 0),
+    (r"gsr_->sampleGoal\(", "SAMPLEGOAL(", 0), (r"gsr_->isStartGoalPairValid\(", "PAIRVALID(", 0), (r"ss->interpolate\(", "INTERP(", 0),
+    (r"!ptc\b", "!PTC()", 0), (r"rng_\.uniformReal\(std::max\(", "UNIFORM_REAL(MAXD(", 0), (r"std::max\(1u, startIndex\)", "MAXU(1u, startIndex)", 0),
+]
+UNITS.append(dict(name="c17_simplifier_findBetterGoal", template="C17/bettergoal.c", mode="plain", entry="h_findBetterGoal", flags=PFL, unwind=7, unwindset={"ps_findBetterGoal.5": 2, "ps_findBetterGoal.6": 2}, defines=dict(MAXGOALS=1, MAXSA=1), level="bounded", backend="cadical", timeout=1500,
+                  sources=[dict(name="findBetterGoal", file=PS, sig=r"bool ompl::geometric::PathSimplifier::findBetterGoal\(PathGeometric &path, const base::PlannerTerminationCondition &ptc,\s*unsigned int samplingAttempts, double rangeRatio,\s*double snapToVertex\)", rules=BGR, loops={"allow_uncontracted": True})],
+                  bound="paths of <= 4 states, 1 sampled goal x 1 sampling attempt (every attempt before the accepted one leaves the path untouched); additive objective with non-negative motion costs <= 2^40", functions=["ompl::geometric::PathSimplifier::findBetterGoal"],
+                  canaries=[dict(name="cost_to_come_before_snapping", where="body:findBetterGoal", rx=r"if \(dists\[end\] - t < threshold\)\s*startIndex = endIndex;", repl="if (dists[end] - t < threshold) { startIndex = endIndex; costToCome = (*costs_at(start)); }"),
+                            dict(name="goal_motion_not_validated", where="body:findBetterGoal", rx=r"&& CM\(state, tempGoal\)", repl="&& (CM(state, tempGoal) || 1)")]))
+
 ASSUMPTIONS = ["the state vector is modelled as the identity sequence; getMotionStates(s1,s2,block,ns,false,true) yields exactly ns interior states (its own contract, not verified here)",
                "(int)floor(0.5 + count*segLen/remaining) is an arbitrary int below INT_MAX: for a zero-length path the operand is NaN and the conversion is undefined behaviour in C++ (x86 yields INT_MIN, which the code tolerates); recorded as an assumption"]
 TRUSTED = ["extraction rewrite tables of units/C17.py", "stubs in units/C17/pathgeom.c", "CBMC 6.11 DFCC + cadical/minisat"]
-NOT_COVERED = ["PathSimplifier: reduceVertices, collapseCloseVertices, ropeShortcutPath, partialShortcutPath, B-spline smoothing, perturbation, findBetterGoal, simplify; PathHybridization; every 'never longer / never worse' cost clause (exact-arithmetic)",
+NOT_COVERED = ["PathSimplifier: ropeShortcutPath, partialShortcutPath, perturbPath, findBetterGoal, simplify (reduceVertices, collapseCloseVertices and smoothBSpline are checked bounded: <= 5 states, <= 2 steps); PathHybridization; every 'never longer / never worse' cost clause (exact-arithmetic)",
                "SpaceInformation::getMotionStates, PathGeometric::interpolate() (no-argument form), 'length unchanged' by densification"]
 
 MISC_CPPS = ['src/ompl/geometric/src/PathGeometric.cpp']
